@@ -296,6 +296,8 @@ pub unsafe extern "C" fn munmap(addr: *mut c_void, len: size_t) -> c_int {
     r
 }
 
+pub static DENY_PAGE: std::sync::atomic::AtomicU64 = std::sync::atomic::AtomicU64::new(0);
+
 #[no_mangle]
 pub unsafe extern "C" fn mprotect(addr: *mut c_void, len: size_t, prot: c_int) -> c_int {
     if !active() {
@@ -319,7 +321,11 @@ pub unsafe extern "C" fn mprotect(addr: *mut c_void, len: size_t, prot: c_int) -
     watch::diff_all("mprotect");
     let n = N_MPROTECT.fetch_add(1, SeqCst) + 1;
     let pol = POLICY.lock().unwrap().clone();
+    // a page that never becomes writable (a sealed / file-backed read-only mapping): every request fails
+    let dp = DENY_PAGE.load(SeqCst);
+    let denied = dp != 0 && (prot & libc::PROT_WRITE) != 0 && (addr as u64) < dp + 4096 && (addr as u64 + len as u64) > dp;
     let r = match &pol {
+        _ if denied => -libc::EACCES,
         Some(p) if p.mprotect_fail_at != 0 && n == p.mprotect_fail_at => -libc::EACCES,
         _ => raw_mprotect(addr as u64, len, prot),
     };
